@@ -16,7 +16,7 @@ func init() {
 		Desc: "one Refresh (poll + applyUpdates + cache flush) from an arbitrary store state against an arbitrary service state"})
 	c11.Harnesses = append(c11.Harnesses, &HarnessSpec{Name: "verifHarnessC11Jitter", Pkg: "client/setec", Stubs: clientStubs, Params: map[string]int{}, ExpectReach: []string{"end"}, Solver: "cvc5-int",
 		ModelOnlyLabels: map[string]string{"within-ten-percent": "the counterexample fixes the result of math/rand.Intn, which the native run cannot control"},
-		Desc: "run(): ticker period = interval + jitter with |jitter| <= interval/10 for every 64-bit interval in [5ns, 2^62ns) and every rand.Intn result (bit-vector arithmetic incl. signed division by 10)"})
+		Desc:            "run(): ticker period = interval + jitter with |jitter| <= interval/10 for every 64-bit interval in [5ns, 2^62ns) and every rand.Intn result (bit-vector arithmetic incl. signed division by 10)"})
 	c11.Harnesses = append(c11.Harnesses, &HarnessSpec{Name: "verifHarnessC11RunLoop", Pkg: "client/setec", Stubs: clientStubs, Params: map[string]int{"ticks": 2}, ThoroughParams: map[string]int{"ticks": 4},
 		ExpectReach: []string{"end"}, NoNative: "the ticker and the poller's context are environment channels on a ghost schedule",
 		Desc: "Store.run: exactly one poll per tick, tick acknowledged, poll errors do not stop the loop, cancellation ends it with a cache flush"})
@@ -92,6 +92,7 @@ func init() {
 	h2.NoNative = fsNote
 	c13.Harnesses = append(c13.Harnesses, h1, h2,
 		chNoNative(ch("verifHarnessC13NewFileCache", map[string]int{}, nil, []string{"end", "end-refused"}, "NewFileCache: directory 0700, non-regular path refused"), fsNote),
+		ch("verifHarnessC13FlushAfterFailedWrite", map[string]int{"names": 2}, map[string]int{"names": 3}, []string{"end"}, "two steps: an install whose cache write fails, then the shutdown flush with a working cache must write the whole set"),
 		ch("verifHarnessC13ShutdownFlush", map[string]int{"names": 2}, map[string]int{"names": 3}, []string{"end"}, "the poller flushes the whole active set on shutdown"),
 		ch("verifHarnessC10NewStoreDoc", map[string]int{"names": 2, "fails": 1, "entrykinds": 2}, map[string]int{"names": 2, "fails": 2, "entrykinds": 3}, []string{"end-ok", "end-from-cache"}, "flush after initial fetch; restart from any cache document without contacting the service"),
 		ch("verifHarnessC10NewStoreBadCache", map[string]int{"fails": 1, "entrykinds": 2}, map[string]int{"fails": 2, "entrykinds": 3}, []string{"end-ok"}, "unreadable, empty or arbitrary cache contents are never fatal"),
@@ -128,6 +129,7 @@ func init() {
 
 	c20 := &Property{ID: "C20", Pkgs: []string{"client/setec"}, Bounds: map[string]string{"fields": "one each of []byte, string, Secret, custom unmarshaler; values arbitrary; each lookup may fail"}}
 	c20.Harnesses = append(c20.Harnesses, ch("verifHarnessC20Parse", map[string]int{}, nil, []string{"end"}, "ParseFields + Apply on a fixed family of struct shapes (supported types, binary unmarshalers by value and by pointer, embedded struct, untagged fields; rejected: unsupported type, empty name with and without verb, no tags, non-pointer, non-struct), values symbolic; reflect is a go/types-backed model"))
+	c20.Harnesses = append(c20.Harnesses, ch("verifHarnessC20JSONField", map[string]int{}, nil, []string{"end"}, "a json-tagged field: accepted only if the whole secret is exactly one JSON document (syntactic class of the bytes is an uninterpreted function shared by Unmarshal and Decoder.Decode)"))
 	c20.Harnesses = append(c20.Harnesses, ch("verifHarnessC20Apply", map[string]int{}, nil, []string{"end"}, "Fields.Apply/Secrets on a hand-built field list: per-type assignment, private copy, naming, error isolation"))
 	propRegistry = append(propRegistry, c20)
 }
